@@ -79,6 +79,12 @@ var scens = []scen{
 	{Name: "c10-crossing-oversized", Props: []string{"C10"}, IDs: []uint32{1, 2}, Qlen: 8,
 		Writers: []wspec{{"A", 1, []int{2*maxPayload + 3}}, {"B", 1, []int{2*maxPayload + 1}}, {"A", 2, []int{1}}},
 		Readers: []rspec{{"B", 1, 0}, {"A", 1, 0}, {"B", 2, 0}}, Bound: [2]int{2, 3}},
+	{Name: "c10-ids-congruent-mod-16", Props: []string{"C10"}, IDs: []uint32{1, 17}, Qlen: 8,
+		Writers: []wspec{{"A", 1, []int{2, maxPayload + 1}}, {"A", 17, []int{3}}},
+		Readers: []rspec{{"B", 1, 0}, {"B", 17, 0}}, Bound: [2]int{2, 3}},
+	{Name: "c10-ids-congruent-mod-256-and-65536", Props: []string{"C10"}, IDs: []uint32{2, 258, 65538}, Qlen: 8,
+		Writers: []wspec{{"A", 2, []int{1}}, {"A", 258, []int{2}}, {"A", 65538, []int{3}}},
+		Readers: []rspec{{"B", 2, 0}, {"B", 258, 0}, {"B", 65538, 0}}, Bound: [2]int{2, 3}},
 	// ---- C11: fail stop ----
 	{Name: "c11-cut-any-offset", Props: []string{"C11"}, IDs: []uint32{1, 2}, Qlen: 8, Cut: true,
 		Writers: []wspec{{"A", 1, []int{maxPayload + 1}}, {"B", 2, []int{2}}},
